@@ -184,10 +184,15 @@ class OrderManager:
         else:
             credit_symbol = order.pair.quote_symbol
 
-        candidate_loans = [
-            loan for loan in self._ctx.loan_mgr.get_loans(is_open=True)
-            if loan.borrowed_symbol == credit_symbol
-        ]
+        # Loans are repayed as far as possible. If the interest can't be calculated because there is no price for it, or
+        # there is not enough balance, the loan is left open. This must not fail since the order is already closed.
+        try:
+            candidate_loans = [
+                loan for loan in self._ctx.loan_mgr.get_loans(is_open=True)
+                if loan.borrowed_symbol == credit_symbol
+            ]
+        except errors.NoPrice:
+            return
         # Try to cancel bigger loans first.
         candidate_loans.sort(key=lambda loan: loan.borrowed_amount, reverse=True)
         loan_ids: List[str] = []
@@ -197,7 +202,7 @@ class OrderManager:
                 loan_ids.append(loan.id)
                 loan = cast(lending.LoanInfo, self._ctx.loan_mgr.get_loan(loan.id))
                 logger.debug(logs.StructuredMessage("Repayed loan", loan=dataclasses.asdict(loan)))
-            except errors.NotEnoughBalance:
+            except (errors.NotEnoughBalance, errors.NoPrice):
                 pass
 
         # Add loans to order.
